@@ -5,6 +5,7 @@ mod tys;
 mod fam_locals;
 mod fam_iter;
 mod fam_custom;
+mod fam_edit;
 
 use ctx::Ctx;
 
@@ -40,6 +41,7 @@ fn main() {
         "iter" => fam_iter::run_iter(&mut ctx),
         "compiter" => fam_iter::run_compiter(&mut ctx),
         "custom" => fam_custom::run(&mut ctx),
+        "edit" => fam_edit::run(&mut ctx),
         x => {
             eprintln!("unknown family {x}");
             std::process::exit(2);
